@@ -7,7 +7,7 @@ from ..runner import Violation
 from .hist import Index
 
 
-def delivered_equals_complete(ix: Index, only_kinds: tuple = ("msg",), pid: str = "C01") -> list[Violation]:
+def delivered_equals_complete(ix: Index, only_kinds: tuple = ("msg",), pid: str = "C01", until_seq: float | None = None) -> list[Violation]:
     """After every delivery, process_packet calls == frames whose last byte has been delivered."""
     out: list[Violation] = []
     for cid, txs in ix.dev_tx.items():
@@ -23,6 +23,8 @@ def delivered_equals_complete(ix: Index, only_kinds: tuple = ("msg",), pid: str 
         if recvs:
             checkpoints.append((float("inf"), recvs[-1][1]))
         for seq_limit, total in checkpoints:
+            if until_seq is not None and seq_limit >= until_seq:
+                break  # only while the connection is healthy (the caller's cut-off: first fatal error / close)
             want = [(t, p) for end, t, p in frames if end <= total]
             got = [(t, d) for s, t, d in pps if s < seq_limit]
             if got != want:
